@@ -95,16 +95,20 @@ type run struct {
 func planFor(tier string) []run {
 	if tier == "thorough" {
 		return []run{
-			{"moderate", "init", "wide", 4}, {"moderate", "init", "narrow", 6}, {"moderate", "aged", "wide", 3}, {"moderate", "pruning", "wide", 3},
-			{"moderate", "drained", "wide", 3}, {"moderate", "epoch", "wide", 3}, {"moderate", "genesis", "wide", 3},
-			{"reversed", "init", "wide", 3}, {"reversed", "init", "narrow", 5}, {"reversed", "aged", "wide", 3}, {"reversed", "pruning", "wide", 3}, {"reversed", "drained", "wide", 2},
-			{"unit", "init", "wide", 3}, {"unit", "aged", "wide", 2},
+			{"moderate", "genesis", "wide", 3}, {"moderate", "init", "wide", 3}, {"moderate", "init", "narrow", 5},
+			{"moderate", "aged", "wide", 2}, {"moderate", "aged", "narrow", 3}, {"moderate", "pruning", "wide", 3},
+			{"moderate", "drained", "wide", 3}, {"moderate", "epoch", "wide", 2},
+			{"reversed", "init", "wide", 3}, {"reversed", "init", "narrow", 4}, {"reversed", "aged", "narrow", 2},
+			{"reversed", "pruning", "wide", 2}, {"reversed", "drained", "wide", 2},
+			{"sameblock", "genesis", "wide", 2}, {"sameblock", "genesis", "narrow", 3},
+			{"unit", "init", "narrow", 2}, {"unit", "aged", "narrow", 1},
 		}
 	}
 	return []run{
 		{"moderate", "genesis", "wide", 2}, {"moderate", "init", "wide", 3},
 		{"moderate", "aged", "narrow", 2}, {"moderate", "pruning", "wide", 2}, {"moderate", "drained", "wide", 2}, {"moderate", "epoch", "narrow", 1},
 		{"reversed", "init", "narrow", 3}, {"reversed", "pruning", "narrow", 2},
+		{"sameblock", "genesis", "narrow", 2},
 		{"unit", "init", "narrow", 1},
 	}
 }
@@ -161,7 +165,7 @@ func main() {
 	f := core.ParseFlags()
 	r := core.NewResult(f.Prop)
 	// the work is dominated by short-lived big.Int garbage of the code under test (LogBase2 in every interpolation)
-	debug.SetGCPercent(800)
+	debug.SetGCPercent(300)
 	if f.Prop != "C10" {
 		fmt.Fprintln(os.Stderr, "twap10: unknown property", f.Prop)
 		os.Exit(2)
